@@ -25,7 +25,7 @@ def run_seed(wt, sid, serial=False):
     if a.returncode != 0:
         return "NOAPPLY"
     try:
-        env = dict(os.environ, VERIF_REPO=wt)
+        env = dict(os.environ, VERIF_REPO=wt, VERIF_NO_PRUNE="1")
         if not serial:
             g = subprocess.run(["python3", V + "/tr/gen.py"], env=dict(env, VERIF_GEN_DRYRUN="1"), stdout=subprocess.PIPE, stderr=subprocess.PIPE)
             try:
@@ -36,6 +36,8 @@ def run_seed(wt, sid, serial=False):
                 return "DEFER"
         p = subprocess.run(["./check", prop, "--tier", tier], cwd=V, env=env, stdout=subprocess.PIPE, stderr=subprocess.PIPE)
         o = p.stdout.decode()
+        if p.returncode not in (0, 1):
+            open("/var/tmp/seedpar/err_%s.txt" % sid, "w").write(p.stderr.decode()[-4000:])
         return "rc=%d violations=%d no-input=%d" % (p.returncode, sum(l.startswith("VIOLATION") for l in o.splitlines()), o.count("no-failing-input-found"))
     finally:
         sh("git", "-C", wt, "checkout", "-q", "--", ".")
